@@ -78,3 +78,24 @@ PROPS["C05"] = dict(
     technique="Lean 4 proof (decide +kernel over the finite tables, induction for digit laws) + exact model/implementation correspondence",
     assumptions=["UTMUPS::Reverse is a kernel here (C04/C06)"],
 )
+
+PROPS["C08"] = dict(
+    harnesses=[dict(name="C08", procs_quick=2, procs_thorough=16)],
+    rule=("random edit histories (Clear/AddPoint/AddEdge/TestPoint/TestEdge/Compute, length ≤ 30 quick / ≤ 200 thorough) over Geodesic, "
+          "GeodesicExact and Rhumb back ends, polygon and polyline, all reverse/sign combinations; vertices on lon 0, ±180, ±360, ±540, ±1 ulp, "
+          "multiples of 90, poles, clusters (short edges), edges of length 0 and of several circuits; transit/transitdirect on nasty longitude pairs; "
+          "metamorphic laws on 3..9-gons incl. vertices on multiples of 90°. non-trivial = history with ≥ 2 vertices at a Compute; distinct = distinct "
+          "(op, leading bits of first arguments)"),
+    tolerances={"num, crossings (through the area)": "exact", "perimeter/area vs exact rational bookkeeping": "8·2^-53·(Σ|terms| + A)",
+                "metamorphic laws": "64e-15·(A+|area|) area, 1e-13 relative perimeter"},
+    level_text=("Theorems (all inputs / all histories): transit equals the jump of ⌊λ/360⌋ along an edge (pointwise, from the AngNormalize/AngDiff contract) and "
+                "its sum over any closed chain is the winding number Σ AngDiff/360; transitdirect has the parity of ⌊λ₂/360⌋−⌊λ₁/360⌋; AreaReduce ranges and "
+                "flip laws; TestPoint/TestEdge return what AddPoint/AddEdge followed by Compute return and do not change the state; Clear restores the "
+                "initial state; sums are invariant under rotation of the vertex list. The executable model (exact rational sums, the solver's edge "
+                "values as kernel inputs) is compared with the implementation over random histories; start-vertex, +360k, constant-shift, reversal, "
+                "flag and cut-additivity laws are oracles on the implementation."),
+    level_note=("hand-written model of PolygonArea.cpp; the geodesic/rhumb solvers are kernels whose per-edge outputs are fed to the model (their "
+                "correctness is C01–C03/C09); AngDiff/AngNormalize/remainder are the exact F64 models of C16"),
+    technique="Lean 4 proof (induction over histories, floor arithmetic over ℚ) + correspondence of the exact-arithmetic model against the implementation",
+    assumptions=["edges are unique shortest lines (ambiguous 180° edges are excluded from the metamorphic oracles, as the statement allows)"],
+)
